@@ -116,3 +116,52 @@ def sdiv_inexact_cases(rng, x, dt, tag, n=3):
             return None
         cases.append(Case(None, impl, oracle, "sdiv-inexact/%s/%s" % (kname, tag), True, desc="x / %r (%s) x.N=%s dtype=%s" % (q64, kname, list(x.N), dt)))
     return cases
+
+
+def scalar_inexact_cases(rng, x, dt, tag, n=4):
+    """x (+,-,*) s and s (+,-,*) x for scalars that are NOT exactly representable in lower precision (0.1, pi, 1/3, -12345.678) in every
+    admissible form (python float, numpy float64, 0-d / 1-element torch tensor of the operand's real dtype, complex for complex operands).
+    No model line (inexact); oracle: dense value within a few ulp of the operand's dtype, dtype and shape preserved — a scalar that takes a
+    detour through a narrower dtype is off by ~1e-8 and fails."""
+    import math
+    import numpy as np
+    from common import Case
+    real = dt if dt != tn.complex128 else tn.float64
+    tol = 1e-5 if dt == tn.float32 else 1e-13
+    vals = [0.1, math.pi, 1.0 / 3.0, -12345.678]
+    forms = [("float", float), ("npfloat64", np.float64), ("tensor0d", lambda v: tn.tensor(v, dtype=real)), ("tensor1el", lambda v: tn.tensor([v], dtype=real))]
+    if dt == tn.complex128:
+        forms.append(("complex", lambda v: complex(v, -0.7 * v)))
+    dx = dense_of(x)
+    cases = []
+    for _ in range(n):
+        v = rng.choice(vals)
+        kname, mk = rng.choice(forms)
+        s = mk(v)
+        sv = complex(s) if isinstance(s, complex) else float(s.reshape(-1)[0]) if tn.is_tensor(s) else float(s)
+        opname, f, dn = rng.choice([("add", lambda x, s: x + s, lambda dx, sv: dx + sv), ("radd", lambda x, s: s + x, lambda dx, sv: sv + dx),
+                                    ("sub", lambda x, s: x - s, lambda dx, sv: dx - sv), ("rsub", lambda x, s: s - x, lambda dx, sv: sv - dx),
+                                    ("mul", lambda x, s: x * s, lambda dx, sv: dx * sv), ("rmul", lambda x, s: s * x, lambda dx, sv: sv * dx)])
+        if kname == "tensor1el" and opname in ("radd", "rsub", "rmul"):
+            opname, f, dn = "add", (lambda x, s: x + s), (lambda dx, sv: dx + sv)      # tensor.__add__(TT) is torch's business, not torchtt's
+        if kname in ("tensor0d",) and opname in ("radd", "rsub", "rmul"):
+            opname, f, dn = "mul", (lambda x, s: x * s), (lambda dx, sv: dx * sv)
+        box, impl = boxed(lambda x=x, s=s, f=f: f(x, s))
+
+        def oracle(box=box, dn=dn, sv=sv, opname=opname, kname=kname, x=x):
+            if "r" not in box:
+                return "x %s scalar raised (%s)" % (opname, kname)
+            r = box["r"]
+            if not isinstance(r, torchtt.TT) or r.is_ttm != x.is_ttm or list(r.N) != list(x.N):
+                return "x %s scalar: kind or shape changed" % opname
+            if any(c.dtype != dt for c in r.cores):
+                return "x %s scalar (%s): dtype not preserved: %s" % (opname, kname, [str(c.dtype) for c in r.cores])
+            exp = dn(dx, sv)
+            err = float((dense_of(r) - exp).abs().max())
+            scale = max(float(exp.abs().max()), abs(sv) if not isinstance(sv, complex) else abs(sv), 1e-300)
+            if err > tol * scale:
+                return "x %s %r (%s): dense value off by %.3g relative (scalar rounded to a narrower precision?)" % (opname, sv, kname, err / scale)
+            return None
+        cases.append(Case(None, impl, oracle, "scalar-inexact/%s/%s/%s" % (opname, kname, tag), True,
+                          desc="x %s %r (%s) kind=%s N=%s dtype=%s" % (opname, sv, kname, "ttm" if x.is_ttm else "tt", list(x.N), dt)))
+    return cases
